@@ -38,6 +38,69 @@ def load_text(text, tag):
     return nasim.load_scenario(path), path
 
 
+# simulated file time: both versions of a file that is rewritten in place are
+# stamped inside one second (what a fast rewrite, or a file system with coarse
+# timestamps, produces)
+FILE_T0 = 1700000000.25
+
+
+def pad_to(text, n):
+    """text padded with a trailing YAML comment to n bytes (n >= len)."""
+    need = n - len(text.encode())
+    if need <= 0:
+        return text
+    if need == 1:
+        return text + "\n"
+    return text + "\n#" + "p" * (need - 2)
+
+
+def load_rewritten(first, second, tag):
+    """Storage fault 'rewritten in place': `first` is written to the path and
+    loaded (whatever happens is ignored), then the file is overwritten with
+    `second` - same path, same size, same second - and loaded for real."""
+    import os
+    import nasim
+    n = max(len(first.encode()), len(second.encode()))
+    first, second = pad_to(first, n), pad_to(second, n)
+    path = configs.write_doc(first, tag)
+    os.utime(path, (FILE_T0, FILE_T0))
+    try:
+        nasim.load_scenario(path)
+    except Exception:
+        pass
+    with open(path, "w") as f:
+        f.write(second)
+    os.utime(path, (FILE_T0 + 0.5, FILE_T0 + 0.5))
+    return nasim.load_scenario(path), path
+
+
+def enlarge(doc):
+    """A bigger network that contains every address of `doc` and more: two
+    more hosts in every subnet and one more subnet (three hosts) behind the
+    first one."""
+    d = copy.deepcopy(doc)
+    n = len(d["subnets"])
+    hosts = d["host_configurations"]
+    tmpl = copy.deepcopy(next(iter(hosts.values())))
+    tmpl.pop("firewall", None)
+    tmpl.pop("value", None)
+    sizes = [int(x) + 2 for x in d["subnets"]] + [3]
+    have = {docgen.reader_addr(k) for k in hosts}
+    for s in range(1, n + 2):
+        for h in range(sizes[s - 1]):
+            if (s, h) not in have:
+                hosts[docgen.A(s, h)] = copy.deepcopy(tmpl)
+    d["subnets"] = sizes
+    T = [list(r) + [0] for r in d["topology"]]
+    T.append([0] * (n + 2))
+    T[n + 1][n + 1] = 1
+    T[1][n + 1] = T[n + 1][1] = 1
+    d["topology"] = T
+    d["firewall"][docgen.A(1, n + 1)] = list(d["services"])
+    d["firewall"][docgen.A(n + 1, 1)] = list(d["services"])
+    return d
+
+
 # ==========================================================================
 # C17
 # ==========================================================================
@@ -124,6 +187,34 @@ def c17_run_one(prop, tier, root, idx, extra):
     else:
         text = configs.shipped_text(label)
     trace = {"seed": seed, "text": text, "label": label}
+    fx = core.stream(seed, "faults2")
+    if fx.random() < 0.15:
+        # storage fault: another valid version of the file (other numbers,
+        # possibly other name order) was at the same path a moment ago
+        v = configs.variant_spec({"kind": "yaml", "text": text}, fx, "doc",
+                                 keep_order=False)
+        if v is not None:
+            trace["rewrite"] = v["text"]
+    if fx.random() < 0.2:
+        # an earlier load in this process was refused: a sibling of this
+        # document (all optional sections present) that breaks one rule of
+        # the C18 catalogue
+        try:
+            d = yaml.safe_load(text)
+            d["step_limit"] = d.get("step_limit") or fx.choice([7, 40, 300])
+            names = sorted(OPERATORS)
+            fx.shuffle(names)
+            for name in names[:8]:
+                d2 = copy.deepcopy(d)
+                try:
+                    if OPERATORS[name](d2, fx):
+                        trace["refused_before"] = {"fault": name,
+                                                   "text": docgen.emit(d2)}
+                        break
+                except (KeyError, IndexError, ValueError):
+                    continue
+        except Exception:
+            pass
     return c17_execute(trace, tier, {"idx": idx, "seed": seed}, gen=True)
 
 
@@ -137,9 +228,20 @@ def c17_execute(trace, tier, res, gen=False):
     episodes = [] if gen else (trace.get("episodes") or [])
     try:
         cfg = reader.from_yaml_text(text, name="doc")
-        path = configs.write_doc(text, "c17")
+        if trace.get("refused_before"):
+            counters.hit("fault.earlier_load_refused")
+            try:
+                load_text(trace["refused_before"]["text"], "c17bad")
+                counters.hit("broken_sibling_accepted")
+            except Exception:
+                pass
         try:
-            scen = nasim.load_scenario(path)
+            if trace.get("rewrite"):
+                counters.hit("fault.file_rewritten_in_place")
+                scen, path = load_rewritten(trace["rewrite"], text, "c17")
+            else:
+                path = configs.write_doc(text, "c17")
+                scen = nasim.load_scenario(path)
         except Exception as e:
             raise Violation("C17.accept", "a document in the documented "
                             "format was refused",
@@ -632,6 +734,14 @@ def c18_run_one(prop, tier, root, idx, extra):
     rng = core.stream(seed, "cfg")
     doc, label = base_doc(rng, idx)
     fl = core.stream(seed, "faults")
+    fx = core.stream(seed, "faults2")
+    bigger_broken = None
+    try:
+        big = enlarge(doc)
+        big["step_limit"] = -10          # refused at the very end
+        bigger_broken = docgen.emit(big)
+    except Exception:
+        bigger_broken = None
     cases = []
     for name in sorted(OPERATORS):
         d = copy.deepcopy(doc)
@@ -640,7 +750,16 @@ def c18_run_one(prop, tier, root, idx, extra):
         except (KeyError, IndexError, ValueError):
             applied = False
         if applied:
-            cases.append({"fault": name, "text": docgen.emit(d)})
+            case = {"fault": name, "text": docgen.emit(d)}
+            r = fx.random()
+            if r < 0.12:
+                # the valid document is on disk (and was loaded) first; the
+                # broken one replaces it in place
+                case["rewrite_of_base"] = True
+            elif r < 0.24 and bigger_broken is not None:
+                # a bigger network's document was refused just before
+                case["after_refused"] = bigger_broken
+            cases.append(case)
     base_text = docgen.emit(doc)
     # torn writes of the valid document
     n_torn = 4 if tier == "quick" else 12
@@ -712,7 +831,18 @@ def c18_execute(trace, tier, res):
                 counters.hit("rule." + fault.split(".")[0])
             res["ops"] += 1
             try:
-                load_text(case["text"], "c18")
+                if case.get("after_refused"):
+                    counters.hit("fault.earlier_load_refused")
+                    try:
+                        load_text(case["after_refused"], "c18big")
+                        counters.hit("bigger_broken_document_accepted")
+                    except Exception:
+                        pass
+                if case.get("rewrite_of_base"):
+                    counters.hit("fault.file_rewritten_in_place")
+                    load_rewritten(trace["base"], case["text"], "c18rw")
+                else:
+                    load_text(case["text"], "c18")
             except Exception:
                 counters.hit("rejected")
                 continue
